@@ -193,6 +193,10 @@ pub enum FaultKind {
     CloseAfter,
     /// the terminal closes the idle connection before the call starts: the client's next command write fails
     IdleClose,
+    /// the terminal says something unsolicited on the idle connection before the call starts: 0 = the first two bytes of
+    /// a packet and then nothing more (connection kept open), 1 = one byte and then nothing more, 2 = a complete
+    /// intermediate status (and it goes on serving), 3 = a header announcing 200 bytes followed by 3 of them, then nothing
+    IdleBytes(u8),
 }
 
 /// Well-formed packets a terminal could send; each is a fault only where the reply set does not contain it.
@@ -368,6 +372,8 @@ pub struct Shared {
     /// wakes the serving tasks when the terminal closes its idle connections
     pub kill: Arc<tokio::sync::Notify>,
     pub kill_epoch: u64,
+    /// what the serving tasks do when woken by `kill`
+    pub idle_action: Option<FaultKind>,
 }
 
 pub type SharedRef = Arc<Mutex<Shared>>;
@@ -395,6 +401,7 @@ impl Shared {
             trace_counter: 975,
             kill: Arc::new(tokio::sync::Notify::new()),
             kill_epoch: 0,
+            idle_action: None,
         }
     }
     fn now_ms(&self) -> u64 {
@@ -421,7 +428,8 @@ impl Shared {
             }
         }
         let call = self.call;
-        if self.plan.faults.iter().any(|f| f.call == call && f.at == At::Idle) {
+        if let Some(f) = self.plan.faults.iter().find(|f| f.call == call && f.at == At::Idle) {
+            self.idle_action = Some(f.kind);
             self.kill_epoch += 1;
             self.kill.notify_waiters();
             return true;
@@ -816,7 +824,7 @@ async fn send(shared: &SharedRef, io: &mut DuplexStream, conn: usize, pkt: &[u8]
 }
 
 async fn serve(shared: SharedRef, mut io: DuplexStream, conn: usize) {
-    let (kill, epoch0) = {
+    let (kill, mut epoch0) = {
         let sh = shared.lock().unwrap();
         (sh.kill.clone(), sh.kill_epoch)
     };
@@ -827,10 +835,34 @@ async fn serve(shared: SharedRef, mut io: DuplexStream, conn: usize) {
             f = read_frame(&mut io) => Some(f),
         };
         let Some(frame) = frame else {
-            if shared.lock().unwrap().kill_epoch != epoch0 {
-                shared.lock().unwrap().ev(conn, Dir::Fault(FaultKind::IdleClose), &[]);
-                drop(io);
-                return;
+            let (epoch, action) = {
+                let sh = shared.lock().unwrap();
+                (sh.kill_epoch, sh.idle_action)
+            };
+            if epoch != epoch0 {
+                epoch0 = epoch;
+                match action {
+                    Some(FaultKind::IdleBytes(v)) => {
+                        let bytes: Vec<u8> = match v % 4 {
+                            0 => vec![0x04, 0xff],
+                            1 => vec![0x06],
+                            2 => vec![0x04, 0xff, 0x01, 0x0a],
+                            _ => vec![0x04, 0x0f, 0xc8, 0x27, 0x00, 0x04],
+                        };
+                        shared.lock().unwrap().ev(conn, Dir::Fault(FaultKind::IdleBytes(v)), &bytes);
+                        let _ = io.write_all(&bytes).await;
+                        if v % 4 == 2 {
+                            continue; // a complete packet: the terminal goes on serving
+                        }
+                        passive(&shared, &mut io, conn).await;
+                        return;
+                    }
+                    _ => {
+                        shared.lock().unwrap().ev(conn, Dir::Fault(FaultKind::IdleClose), &[]);
+                        drop(io);
+                        return;
+                    }
+                }
             }
             continue;
         };
@@ -961,7 +993,7 @@ async fn serve(shared: SharedRef, mut io: DuplexStream, conn: usize) {
                         FaultKind::Unexpected(i) => {
                             let _ = io.write_all(UNEXPECTED[i as usize % UNEXPECTED.len()]).await;
                         }
-                        FaultKind::Silence | FaultKind::Refuse | FaultKind::ConnectStall | FaultKind::Pause(_) | FaultKind::CloseAfter | FaultKind::IdleClose => {}
+                        FaultKind::Silence | FaultKind::Refuse | FaultKind::ConnectStall | FaultKind::Pause(_) | FaultKind::CloseAfter | FaultKind::IdleClose | FaultKind::IdleBytes(_) => {}
                     }
                     passive(&shared, &mut io, conn).await;
                     return;
